@@ -1,5 +1,6 @@
 \* thorough: <= 2 types (incl. 65535), <= 3 items of 0..2 words, <= 2 data blocks; every
-\* well-formed file, all corruptions of the structurally maximal ones.
+\* well-formed file, all corruptions of the structurally maximal ones (document header variant
+\* only: the crude variants x all families run in Exp_small and Exp_quick).
 SPECIFICATION Spec
 CONSTANTS
   TypeSets <- TypeSetsT
@@ -7,7 +8,7 @@ CONSTANTS
   WordLens <- WordLensT
   DataLenSeqs <- DataLenSeqsT
   Versions <- VersionsAll
-  Crudes <- CrudesQ
+  Crudes <- CrudesNone
   Fixups = TRUE
   CorruptAll = FALSE
   Emit = TRUE
